@@ -10,18 +10,16 @@ if os.path.exists(r1):
     keep = True
     for line in open(r1).read().splitlines():
         if line.startswith("=== "):
-            keep = ("x-" not in line) and ("y-" not in line)
+            keep = ("x-" not in line) and ("y-" not in line) and ("z-" not in line)
         if keep:
             log += line + "\n"
 if os.path.exists(r23):
     log += open(r23).read()
-# a complete re-run of the whole matrix (after round 5) supersedes the per-round logs; later rounds are appended
-full2 = os.path.join(ROOT, "selftest/last_run.full2.log")
-if os.path.exists(full2):
-    log = open(full2).read()
-    r6 = os.path.join(ROOT, "selftest/last_run.round6.log")
-    if os.path.exists(r6):
-        log += open(r6).read()
+# rounds 5 and 6 (the "y" and "z" seeds) and the own change m21 were run after their widenings
+for extra in ("selftest/last_run.round5.log", "selftest/last_run.round6.log", "selftest/last_run.m21.log"):
+    e = os.path.join(ROOT, extra)
+    if os.path.exists(e):
+        log += open(e).read()
 if not log:
     log = open(os.path.join(ROOT, "selftest/last_run.log")).read()
 rows = []
